@@ -985,6 +985,22 @@ func runHistCase(c *HistCase, prop string) (*caseOut, error) {
 			}
 			inTx = false
 			originals = nil
+		case st.Do == "reload" && len(st.Arg) > 0 && st.Arg[0] == "map":
+			// the Map()/SetMap() route into a newly constructed instance; the exported map is then
+			// emptied by its owner: the new instance must not depend on it
+			before := e.mapFields()
+			exported := e.bfs.Map()
+			nb := e.newBFS()
+			nb.SetMap(exported)
+			for k := range exported {
+				delete(exported, k)
+			}
+			e.bfs = nb
+			if after := e.mapFields(); !dumpEqual(before, after) {
+				viol("C12", fmt.Sprintf("tracked state changed by Map/SetMap into a new instance: %q -> %q", before, after))
+			}
+			out.b.Add(tag, line("bfs.reload"), "ok")
+			out.count("reload.map")
 		case st.Do == "reload":
 			data, merr := json.Marshal(e.bfs)
 			if merr != nil {
@@ -1457,7 +1473,11 @@ func genHistCase(r *RNG, g HistGen, umask int) *HistCase {
 				paths = append(paths, path.Clean("/"+op.A[0]))
 			}
 			if g.Reload && r.Chance(1, 5) {
-				c.Steps = append(c.Steps, Step{Do: "reload"})
+				st := Step{Do: "reload"}
+				if r.Chance(1, 3) {
+					st.Arg = []string{"map"}
+				}
+				c.Steps = append(c.Steps, st)
 			}
 			if g.Force && r.Chance(1, 4) {
 				fp := pickPath(r, paths)
